@@ -3,8 +3,8 @@ independent oracle (reference interpreter on candidate inputs) whether a clean P
 import random
 
 from harness import l3
-from harness.c03_lib import (M, boundary_candidates, compile_contract, expected_bounds, parse_bounds, parse_codes, sig_of,
-                             z3_candidates)
+from harness.c03_lib import (M, boundary_candidates, clause_feasibility, compile_contract, expected_bounds, parse_bounds,
+                             parse_codes, sig_of, z3_candidates)
 
 
 def flags_for(r, sig, all_sigs):
@@ -22,11 +22,15 @@ def flags_for(r, sig, all_sigs):
 def l3_worker(task):
     """task = {"desc": contract description, "options": [halmos options], "code_opt": str|None, "seed": int}
     -> halmos' answers + oracle candidates (the z3 search runs here, in parallel)"""
+    import time
+
+    t0 = time.time()
     desc, options = task["desc"], list(task["options"])
     codes = parse_codes(task.get("code_opt"))
     rt, c = compile_contract(desc)
-    with l3.Project([c]) as p:
+    with l3.Project([c], base=task.get("_base")) as p:
         r = p.run(options, timeout=task.get("timeout", 100))
+    t_halmos = time.time() - t0
     storage = {s: v % M for s, v in desc.get("setup", [])}
     rng = random.Random(task.get("seed", 0))
     cands = {}
@@ -44,10 +48,14 @@ def l3_worker(task):
         except Exception:  # noqa: BLE001  (search aid only)
             pass
         nz = len(cl)
+        try:
+            feas = clause_feasibility(t, bounds, storage)
+        except Exception:  # noqa: BLE001
+            feas = None
         cl += boundary_candidates(t, bounds, storage, rng, limit=task.get("limit", 120))
-        cands[sig] = {"bounds": {str(k): v for k, v in bounds.items()}, "z3": nz,
+        cands[sig] = {"bounds": {str(k): v for k, v in bounds.items()}, "z3": nz, "feas": feas,
                       "inputs": [[v.hex() if isinstance(v, (bytes, bytearray)) else v for v in x] for x in cl]}
-    return {"runtime": rt.hex(), "brief": r.brief(), "out": r.out[-6000:], "err": r.err[-3000:], "cands": cands,
+    return {"seconds": [round(t_halmos, 1), round(time.time() - t0, 1)], "runtime": rt.hex(), "brief": r.brief(), "out": r.out[-6000:], "err": r.err[-3000:], "cands": cands,
             "flags": {s: flags_for(r, s, all_sigs) for s in all_sigs}}
 
 
